@@ -303,3 +303,293 @@ def run_conelp_family(ctx, judge_status, mix, with_backends=True, op_fraction=0.
 
     for k in ctx.cases():
         ctx.run_case(k, {}, one)
+
+
+# ---------------------------------------------------------------------------
+# coneqp / qp (C03)
+# ---------------------------------------------------------------------------
+
+def gen_qp_instance(rng, entry, noineq=False):
+    for _ in range(40):
+        if noineq:
+            d = Dims(0)
+        elif entry == "qp":
+            d = Dims(rng.randint(1, 7))
+        else:
+            d = gp.gen_dims(rng)
+        n = rng.randint(1, 6)
+        p = min(rng.choice([0, 0, 1, 1, 2, 3]), n)
+        r = rng.choice([0, 1, n // 2, n, n])      # rank of P: 0 .. n
+        r = min(max(r, 0), n)
+        if d.Np + p + r < n:
+            continue
+        pr = gp.planted_feasible(rng, d, n, p, qp_rank=r)
+        if pr is not None:
+            pr.rankP = r
+            return pr
+    return None
+
+
+def operator_args(pr, args):
+    """P, G, A as call-backs (documented signatures), backed by numpy"""
+    from cvxopt import matrix
+    D = certs.Data(pr)
+    wv = np.zeros(pr.dims.N)
+    for kind, st, m in pr.dims.blocks():
+        if kind == "s":
+            Wm = np.tril(2.0 * np.ones((m, m))) - np.eye(m)
+            wv[st:st + m * m] = Wm.reshape(-1, order="F")
+        else:
+            wv[st:st + m] = 1.0
+
+    def setv(y, v):
+        for i in range(len(v)):
+            y[i] = float(v[i])
+
+    def fP(x, y, alpha=1.0, beta=0.0):
+        setv(y, alpha * (D.P @ vec_(x)) + beta * vec_(y))
+
+    def fG(x, y, trans="N", alpha=1.0, beta=0.0):
+        if trans == "N":
+            setv(y, alpha * (D.G @ vec_(x)) + beta * vec_(y))
+        else:
+            xv = cone.symmetrize(vec_(x), pr.dims)
+            setv(y, alpha * (D.G.T @ xv) + beta * vec_(y))
+
+    def fA(x, y, trans="N", alpha=1.0, beta=0.0):
+        if trans == "N":
+            setv(y, alpha * (D.A @ vec_(x)) + beta * vec_(y))
+        else:
+            setv(y, alpha * (D.A.T @ vec_(x)) + beta * vec_(y))
+    return fP, fG, fA
+
+
+def vec_(m):
+    return np.array(list(m), dtype=float)
+
+
+def run_coneqp_family(ctx):
+    from cvxopt import solvers
+
+    def one(c):
+        rng = c.rng
+        entry = rng.choices(["coneqp", "qp"], [0.65, 0.35])[0]
+        noineq = rng.random() < 0.12
+        pr = gen_qp_instance(rng, entry, noineq)
+        if pr is None:
+            ctx.count("generator.none"); return
+        d = pr.dims
+        sparse = rng.random() < 0.4
+        junk = rng.random() < 0.4
+        opts, oclass = gen_options(rng, d)
+        names = ["ldl", "ldl2", "chol"] + ([] if (d.q or d.s) else ["chol2"])
+        r = rng.random()
+        operators = False
+        if r < 0.30:
+            kkt, kl = None, "default"
+        elif r < 0.80:
+            kl = rng.choice(names); kkt = kl
+        else:
+            kkt, kl = sr.NumpyKKT(pr), "callable"
+            operators = entry == "coneqp" and rng.random() < 0.5
+        if kl == "ldl" and rng.random() < 0.15:
+            opts = dict(opts); opts["kktreg"] = rng.choice([1e-10, 1e-9]); oclass += "+kktreg"
+        # initvals: every subset of {x, s, y, z}
+        sub = [k for k in "xsyz" if rng.random() < 0.5] if rng.random() < 0.45 else []
+        iv_label = "".join(sub) or "none"
+        args = sr.cvx_args(pr, rng, sparseG=sparse, sparseA=sparse and rng.random() < 0.5, junk=junk,
+                           sparseP=sparse and rng.random() < 0.6)
+        g_none = noineq and rng.random() < 0.5
+        if g_none:
+            args["G"] = None; args["h"] = None
+            if entry == "coneqp":
+                args["dims"] = None
+        a_none = pr.p == 0 and rng.random() < 0.5
+        if a_none:
+            args["A"] = None; args["b"] = None
+        ps = ds = None
+        if sub and not noineq:
+            ps0, ds0, _, _ = sr.start_dicts(entry, pr, "both", rng)
+            ps = {k: v for k, v in ps0.items() if k in sub}
+            ds = {k: v for k, v in ds0.items() if k in sub}
+            if a_none and "y" in ds:
+                pass
+        elif sub and noineq:
+            iv_label = "none"
+        if operators:
+            fP, fG, fA = operator_args(pr, args)
+            args["P"], args["G"], args["A"] = fP, fG, fA
+            if args["h"] is None: args["h"] = sr.mk(pr.h)
+            if args["b"] is None: args["b"] = sr.mk(pr.b)
+            args["dims"] = d.asdict()
+        via_kwarg = rng.random() < 0.5
+        c.desc.update({"entry": entry, "dims": d.key(), "n": pr.n, "p": pr.p, "rankP": pr.rankP, "kkt": kl,
+                       "initvals": iv_label, "opts": opts, "sparse": sparse, "junk": junk, "operators": operators,
+                       "G_none": g_none, "A_none": a_none, "via_kwarg": via_kwarg})
+        saved = dict(solvers.options)
+        try:
+            if via_kwarg:
+                sol, inner, exc = sr.call_entry(entry, pr, args, kktsolver=kkt, ps=ps, ds=ds, options=opts)
+            else:
+                solvers.options.clear(); solvers.options.update(opts)
+                sol, inner, exc = sr.call_entry(entry, pr, args, kktsolver=kkt, ps=ps, ds=ds)
+        finally:
+            solvers.options.clear(); solvers.options.update(saved)
+        if exc is not None:
+            ctx.count("exception.%s" % type(exc).__name__)
+            c.desc["exception"] = "%s: %s" % (type(exc).__name__, exc)
+            return
+        st = sol.get("status")
+        c.desc["status"] = st
+        ctx.count("status." + str(st))
+        if st != "optimal":
+            return
+        J = certs.Judge(c, ctx, entry)
+        certs.judge_cone_result(c, ctx, pr, sol, opts, entry, qp=True)
+        if entry == "qp" and inner is not None:
+            for v in "xsyz":
+                a, b = sol.get(v), inner.get(v)
+                J.req(a is not None and b is not None and list(a) == list(b), "qp-vs-inner-" + v,
+                      "qp result differs from the inner coneqp result")
+        ctx.count("optimal." + entry)
+        ctx.count("kkt." + kl)
+        ctx.count("initvals." + iv_label)
+        ctx.count("rankP.%s" % ("0" if pr.rankP == 0 else "full" if pr.rankP == pr.n else "deficient"))
+        ctx.count("storage." + ("sparse" if sparse else "dense"))
+        if junk: ctx.count("junk")
+        if noineq: ctx.count("no-inequalities")
+        if g_none: ctx.count("G-none")
+        if operators: ctx.count("operators")
+        ctx.count("options." + oclass)
+        c.cls(entry, d.shape_class(), kl, "sp" if sparse else "de", iv_label, oclass,
+              "r0" if pr.rankP == 0 else "rf" if pr.rankP == pr.n else "rd", "op" if operators else "", "noineq" if noineq else "")
+        if c.k < 2:
+            ctx.sample({"desc": c.desc, "x": list(sol["x"]), "gap": sol.get("gap")})
+
+    for k in ctx.cases():
+        ctx.run_case(k, {}, one)
+
+
+# ---------------------------------------------------------------------------
+# C05: classification of well-posed planted instances with the default paths
+# ---------------------------------------------------------------------------
+
+def bracket_tol(pr, R):
+    """slack allowed around the planted weak-duality bracket for a point with
+    residuals pres/dres: |c'x - p*| effects of infeasibility, bounded through the
+    planted primal/dual points"""
+    pl = pr.pl
+    return 0.0
+
+
+def run_classification(ctx, second_path=True):
+    from cvxopt import solvers
+
+    def one(c):
+        rng = c.rng
+        entry = rng.choices(["conelp", "lp", "socp", "sdp", "coneqp", "qp"], [0.3, 0.15, 0.12, 0.13, 0.2, 0.1])[0]
+        isqp = entry in ("coneqp", "qp")
+        kind = rng.choices(["feasible", "pinf", "dinf"], [0.5, 0.25, 0.25])[0]
+        if isqp and kind == "dinf":
+            kind = "feasible"
+        if isqp:
+            if kind == "feasible":
+                pr = gen_qp_instance(rng, entry)
+            else:
+                base_entry = "lp" if entry == "qp" else "conelp"
+                pr = gen_instance(rng, base_entry, "pinf")
+                if pr is not None:
+                    n = pr.n
+                    r = rng.choice([0, 1, n])
+                    B = gp.rand_sv_matrix(rng, n, r, 0.5, 2.0) if r else np.zeros((n, 0))
+                    pr.P = B @ B.T; pr.q = pr.c; pr.rankP = r
+        else:
+            pr = gen_instance(rng, entry, kind)
+        if pr is None:
+            ctx.count("generator.none"); return
+        d = pr.dims
+        sparse = rng.random() < 0.4
+        if isqp:
+            args = sr.cvx_args(pr, rng, sparseG=sparse, sparseA=sparse and rng.random() < 0.5, sparseP=sparse)
+        elif entry == "conelp":
+            args = sr.cvx_args(pr, rng, sparseG=sparse, sparseA=sparse and rng.random() < 0.5)
+        else:
+            args = sr.wrapper_args(entry, pr, rng, sparse=sparse)
+        c.desc.update({"entry": entry, "kind": kind, "dims": d.key(), "n": pr.n, "p": pr.p, "sparse": sparse,
+                       "sv": pr.pl.get("sv") if hasattr(pr, "pl") else None,
+                       "rows<n": d.Np < pr.n})
+        opts = {"show_progress": False}
+        sol, inner, exc = sr.call_entry(entry, pr, args, options=opts)
+        J = certs.Judge(c, ctx, entry)
+        cls_extra = "rowsG<n,p>0" if (d.Np < pr.n and pr.p > 0) else ""
+        if exc is not None and isqp and kind != "feasible":
+            # coneqp documents "it is required that the problem is solvable": an infeasible QP is outside
+            # its contract, so only "never 'optimal'" is demanded there; exceptions are counted, not judged
+            ctx.count("exception-outside-contract.qp-infeasible.%s" % type(exc).__name__)
+            c.check()
+            c.cls(entry, kind, d.shape_class(), "exception-outside-contract")
+            return
+        if exc is not None:
+            c.desc["exception"] = "%s: %s" % (type(exc).__name__, exc)
+            ctx.count("exception.%s.%s" % (kind, type(exc).__name__))
+            J.req(False, "exception-on-well-posed-%s" % kind, "well-posed planted %s instance raised %s: %s" %
+                  (kind, type(exc).__name__, exc))
+            c.cls(entry, kind, d.shape_class(), "exception", cls_extra)
+            return
+        st = sol.get("status")
+        c.desc["status"] = st
+        ctx.count("status.%s.%s.%s" % ("qp" if isqp else "lp", kind, st))
+        nsol = sr.normalise(entry, sol, d)
+        it = sol.get("iterations")
+        J.req(isinstance(it, int) and 0 <= it <= 100, "iteration-budget", "iterations = %r" % (it,))
+        D = certs.Data(pr)
+        if kind == "feasible":
+            if not J.req(st in ("optimal", "unknown"), "feasible-classified-%s" % str(st).replace(" ", "-"),
+                         "strictly feasible planted instance classified %r" % st):
+                c.cls(entry, kind, d.shape_class(), st, cls_extra); return
+            x, s, y, z = (certs.vec_or_none(nsol.get(k)) for k in "xsyz")
+            s = cone.symmetrize(s, d); z = cone.symmetrize(z, d)
+            R = certs.recompute(D, x, s, y, z)
+            if st == "unknown":
+                lvl = max(R["pres"], R["dres"])
+                rg = [g for g in certs.relgap_candidates(R["pcost"], R["dcost"], R["gap"]) if g is not None]
+                gapok = R["gap"] <= 1e-5 or (rg and min(rg) <= 1e-5)
+                ctx.count("feasible-unknown")
+                J.req(lvl <= 1e-5 and gapok, "feasible-unknown-not-at-1e-5",
+                      "status 'unknown' on a strictly feasible planted instance with pres %.3g dres %.3g gap %.3g after %r iterations"
+                      % (R["pres"], R["dres"], R["gap"], it), sv=pr.pl.get("sv"))
+            # weak-duality bracket from the planted points: d_pl <= p* <= p_pl.  A point with
+            # residuals (pres, dres) and gap g has pcost within the bracket up to an error bounded by
+            # the planted multipliers times the residuals.
+            pl = pr.pl
+            errp = R["resz"] * cone.snrm2(pl["z"], d) + R["resy"] * float(np.linalg.norm(pl["y"])) \
+                + R["resx"] * float(np.linalg.norm(x - pl["x"])) + abs(R["gap"]) \
+                + cone.snrm2(z, d) * 0 + 1e-9 * (1 + abs(pl["p"]) + abs(pl["d"]))
+            # lower bound on pcost:  pcost >= d_pl - (primal residual terms)   [weak duality with planted dual point]
+            lo = pl["d"] - (R["resz"] * cone.snrm2(pl["z"], d) + R["resy"] * float(np.linalg.norm(pl["y"]))) - 1e-9 * (1 + abs(pl["d"]))
+            # upper bound on dcost:  dcost <= p_pl + (dual residual terms)     [weak duality with planted primal point]
+            hi = pl["p"] + R["resx"] * float(np.linalg.norm(pl["x"] - x)) + 1e-9 * (1 + abs(pl["p"]))
+            if st == "optimal" or (R["pres"] <= 1e-5 and R["dres"] <= 1e-5):
+                J.req(R["pcost"] >= lo - 1e-7 * (1 + abs(R["pcost"])), "objective-below-planted-dual-bound",
+                      "primal objective %.12g below the planted dual bound %.12g" % (R["pcost"], pl["d"]))
+                if not isqp:
+                    J.req(R["dcost"] <= hi + 1e-7 * (1 + abs(R["dcost"])) + cone.snrm2(z, d) * R["resz"] * 0,
+                          "dual-objective-above-planted-primal-bound",
+                          "dual objective %.12g above the planted primal value %.12g" % (R["dcost"], pl["p"]))
+        else:
+            want = "primal infeasible" if kind == "pinf" else "dual infeasible"
+            J.req(st != "optimal", "infeasible-classified-optimal", "planted %s instance classified 'optimal'" % kind)
+            if not isqp:
+                if st == "unknown":
+                    ctx.count("infeasible-unknown")
+                J.req(st == want, "%s-classified-%s" % (kind, str(st).replace(" ", "-")),
+                      "planted strict %s instance (certificate margin %.3g) classified %r after %r iterations" %
+                      (kind, pr.pl.get("margin_z", pr.pl.get("margin_s", 0)), st, it), sv=pr.pl.get("sv"))
+        c.cls(entry, kind, d.shape_class(), st, "sp" if sparse else "de", cls_extra)
+        ctx.count("judged.%s.%s" % (entry, kind))
+        if cls_extra: ctx.count("class.rowsG<n,p>0")
+        if c.k < 2:
+            ctx.sample({"desc": c.desc, "status": st, "iterations": it})
+
+    for k in ctx.cases():
+        ctx.run_case(k, {}, one)
